@@ -69,11 +69,13 @@ func runCase(t ev.TB, part string, h History) {
 	extra := []string{}
 	if out.fail != nil && out.fail.timing {
 		first := out.fail
+		firstTrace := out.trace
 		out2 := execute(part, h, confirmDeadline)
 		switch {
 		case out2.fail == nil:
 			extra = append(extra, "deadline-miss-not-reproduced", "deadline-miss-not-reproduced:"+first.sig)
-			fmt.Printf("C09 deadline miss not reproduced: %s step %d: %s\n", first.sig, first.step, first.msg)
+			hj, _ := json.Marshal(h)
+			fmt.Printf("C09 deadline miss not reproduced: %s step %d: %s\nhistory: %s\ntrace:\n  %s\n", first.sig, first.step, first.msg, hj, strings.Join(firstTrace, "\n  "))
 			out = out2
 		case out2.fail.sig == first.sig || !out2.fail.timing:
 			out = out2
@@ -83,6 +85,9 @@ func runCase(t ev.TB, part string, h History) {
 		}
 	}
 	recordCase(part, h, out, extra)
+	if f := out.fail; f != nil && strings.HasPrefix(f.sig, "harness/") || f != nil && strings.Contains(f.sig, "/harness-") {
+		t.Fatalf("VERIF-INCONCLUSIVE (harness): %s: %s", f.sig, f.msg)
+	}
 	if f := out.fail; f != nil {
 		hj, _ := json.Marshal(h)
 		ev.Fail(t, part, f.sig, "step %d: %s\nhistory: %s\ntrace:\n  %s", f.step, f.msg, hj, strings.Join(out.trace, "\n  "))
